@@ -1,0 +1,110 @@
+//go:build verif
+
+// Contracts for package sst, checked by /verif (govc). Ghost functions and
+// comments only.
+package sst
+
+import "bytes"
+
+func forall(lo, hi int, f func(int) bool) bool {
+	for i := lo; i < hi; i++ {
+		if !f(i) {
+			return false
+		}
+	}
+	return true
+}
+
+func exists(lo, hi int, f func(int) bool) bool {
+	for i := lo; i < hi; i++ {
+		if f(i) {
+			return true
+		}
+	}
+	return false
+}
+
+// ghostInRange: the table's [startKey, endKey] range contains key.
+func ghostInRange(t *Table, key []byte) bool {
+	return bytes.Compare(t.startKey, key) <= 0 && bytes.Compare(t.endKey, key) >= 0
+}
+
+// ghostLevelsShape: every level has a table set without nil entries or duplicates;
+// level 0 lists its tables in flush order (oldest first, AddTables appends).
+func ghostLevelsShape(ll *LevelList) bool {
+	return len(ll.levels) >= 1 && forall(0, len(ll.levels), func(i int) bool {
+		return ll.levels[i].tables != nil && forall(0, len(ll.levels[i].tables.Slice()), func(j int) bool {
+			return ll.levels[i].tables.Slice()[j] != nil &&
+				forall(0, j, func(k int) bool { return ll.levels[i].tables.Slice()[k] != ll.levels[i].tables.Slice()[j] })
+		})
+	})
+}
+
+// ghostLevelSorted: tables of a level below 0 are ordered by key range and do not overlap.
+func ghostLevelSorted(ll *LevelList, i int) bool {
+	return forall(0, len(ll.levels[i].tables.Slice()), func(j int) bool {
+		return bytes.Compare(ll.levels[i].tables.Slice()[j].startKey, ll.levels[i].tables.Slice()[j].endKey) <= 0 &&
+			forall(0, j, func(k int) bool {
+				return bytes.Compare(ll.levels[i].tables.Slice()[k].endKey, ll.levels[i].tables.Slice()[j].startKey) < 0
+			})
+	})
+}
+
+//@ func Table.RangeContainsKey
+//@   property C07
+//@   modifies nothing
+//@   ensures result == ghostInRange(t, key)
+
+//@ func Table.RangeKeyCompare
+//@   property C07
+//@   modifies nothing
+//@   ensures bytes.Compare(t.startKey, key) > 0 ==> result == 1
+//@   ensures bytes.Compare(t.startKey, key) <= 0 && bytes.Compare(t.endKey, key) < 0 ==> result == -1
+//@   ensures ghostInRange(t, key) ==> result == 0
+
+//@ func LevelList.At
+//@   property C07 C18
+//@   requires -len(ll.levels) <= levelIndex && levelIndex < len(ll.levels)
+//@   modifies nothing
+//@   ensures levelIndex >= 0 ==> same(result, ll.levels[levelIndex])
+//@   ensures levelIndex < 0 ==> same(result, ll.levels[len(ll.levels)+levelIndex])
+
+// DescendLevels(start) / DescendLevels(start, end): the levels start..end-1 in order.
+//@ func LevelList.DescendLevels
+//@   property C07 C18
+//@   panics when len(offsets) > 2
+//@   requires len(offsets) == 1 ==> 0 <= offsets[0] && offsets[0] <= len(ll.levels)
+//@   requires len(offsets) == 2 ==> 0 <= offsets[0] && offsets[0] <= len(ll.levels) && ((offsets[1] >= 0 && offsets[0] <= offsets[1] && offsets[1] <= len(ll.levels)) || (offsets[1] < 0 && offsets[0] <= len(ll.levels)+offsets[1]))
+//@   modifies nothing
+//@   ensures len(offsets) == 0 ==> seqlen(result) == len(ll.levels) && forall(0, len(ll.levels), func(j int) bool { return same(seqat(result, j), ll.levels[j]) })
+//@   ensures len(offsets) == 1 ==> seqlen(result) == len(ll.levels)-offsets[0] && forall(0, len(ll.levels)-offsets[0], func(j int) bool { return same(seqat(result, j), ll.levels[offsets[0]+j]) })
+//@   loop 0:
+//@     invariant len(out_) == idx_ && forall(0, idx_, func(j int) bool { return same(out_[j], ll.levels[start+j]) })
+
+// AllTablesForKey: candidates in the order a point lookup must consult them:
+// level-0 tables whose range contains the key, NEWEST FIRST (level 0 lists
+// tables oldest first), then per deeper level the table whose range contains it.
+//@ func LevelList.AllTablesForKey
+//@   property C07
+//@   requires ghostLevelsShape(ll) && forall(1, len(ll.levels), func(i int) bool { return ghostLevelSorted(ll, i) })
+//@   requires forall(1, len(ll.levels), func(i int) bool { return forall(0, len(ll.levels[i].tables.l), func(j int) bool { return forall(0, len(ll.levels[0].tables.l), func(k int) bool { return ll.levels[i].tables.l[j] != ll.levels[0].tables.l[k] }) }) })
+//@   modifies nothing
+//@   ensures forall(0, seqlen(result), func(p int) bool { return seqat(result, p) != nil && ghostInRange(seqat(result, p), key) })
+//@   ensures forall(0, len(ll.levels[0].tables.l), func(j int) bool { return ghostInRange(ll.levels[0].tables.l[j], key) ==>
+//@           exists(0, seqlen(result), func(p int) bool { return seqat(result, p) == ll.levels[0].tables.l[j] }) })
+//@   ensures forall(0, seqlen(result), func(p int) bool { return forall(0, p, func(q int) bool {
+//@           return indexof(ll.levels[0].tables.l, seqat(result, q)) >= 0 && indexof(ll.levels[0].tables.l, seqat(result, p)) >= 0 ==>
+//@                  indexof(ll.levels[0].tables.l, seqat(result, q)) > indexof(ll.levels[0].tables.l, seqat(result, p)) }) })
+//@   loop 0:
+//@     invariant forall(0, len(out_), func(p int) bool { return out_[p] != nil && ghostInRange(out_[p], key) })
+//@     invariant forall(0, idx_, func(j int) bool { return ghostInRange(ll.levels[0].tables.l[j], key) ==> exists(0, len(out_), func(p int) bool { return out_[p] == ll.levels[0].tables.l[j] }) })
+//@     invariant forall(0, len(out_), func(p int) bool { return exists(0, idx_, func(j int) bool { return out_[p] == ll.levels[0].tables.l[j] }) })
+//@     invariant forall(0, len(out_), func(p int) bool { return forall(0, p, func(q int) bool {
+//@           return indexof(ll.levels[0].tables.l, out_[q]) >= 0 && indexof(ll.levels[0].tables.l, out_[p]) >= 0 ==>
+//@                  indexof(ll.levels[0].tables.l, out_[q]) > indexof(ll.levels[0].tables.l, out_[p]) }) })
+//@   loop 1:
+//@     invariant forall(0, len(out_), func(p int) bool { return out_[p] != nil && ghostInRange(out_[p], key) })
+//@     invariant forall(0, len(ll.levels[0].tables.l), func(j int) bool { return ghostInRange(ll.levels[0].tables.l[j], key) ==> exists(0, len(out_), func(p int) bool { return out_[p] == ll.levels[0].tables.l[j] }) })
+//@     invariant forall(0, len(out_), func(p int) bool { return forall(0, p, func(q int) bool {
+//@           return indexof(ll.levels[0].tables.l, out_[q]) >= 0 && indexof(ll.levels[0].tables.l, out_[p]) >= 0 ==>
+//@                  indexof(ll.levels[0].tables.l, out_[q]) > indexof(ll.levels[0].tables.l, out_[p]) }) })
